@@ -383,24 +383,33 @@ theorem advanceToken_ok (f : Bool) (pos : Nat) (rest : List Char) :
     · have := utf8Len_takeWhile_le notWs rest
       simp only [LexOk]; omega
 
-theorem advanceReal_ok (f : Bool) (pos : Nat) (rest : List Char) :
-    LexOk (pos + utf8Len rest) rest.length (advanceReal (some f) pos rest) := by
-  have h := advanceToken_ok f pos rest
-  unfold advanceReal
-  split
-  · rename_i t pos' rest' heq
-    rw [heq] at h
+theorem advanceRealLoop_ok (f : Bool) : ∀ (fuel pos : Nat) (rest : List Char), rest.length < fuel →
+    LexOk (pos + utf8Len rest) rest.length (advanceRealLoop (some f) fuel pos rest) := by
+  intro fuel
+  induction fuel with
+  | zero => intro pos rest h; omega
+  | succ fuel ih =>
+    intro pos rest hlen
+    have h := advanceToken_ok f pos rest
+    unfold advanceRealLoop
     split
-    · rename_i hws
-      obtain ⟨_, h2, h3, _⟩ := h
-      have h3' : rest'.length < rest.length := by
-        rcases h3 with h3 | h3
-        · rw [hws] at h3; simp at h3
-        · exact h3
-      have := advanceToken_ok f pos' rest'
-      rw [h2] at this
-      exact this.mono (by omega)
-    · exact h
-  · rename_i r hne
-    exact h
+    · rename_i t pos' rest' heq
+      rw [heq] at h
+      split
+      · rename_i hws
+        obtain ⟨_, h2, h3, _⟩ := h
+        have h3' : rest'.length < rest.length := by
+          rcases h3 with h3 | h3
+          · rcases hws with hws | hws <;> (rw [hws] at h3; simp at h3)
+          · exact h3
+        have := ih pos' rest' (by omega)
+        rw [h2] at this
+        exact this.mono (by omega)
+      · exact h
+    · rename_i r hne
+      exact h
+
+theorem advanceReal_ok (f : Bool) (pos : Nat) (rest : List Char) :
+    LexOk (pos + utf8Len rest) rest.length (advanceReal (some f) pos rest) :=
+  advanceRealLoop_ok f _ pos rest (by omega)
 end Lace.Asm
